@@ -85,9 +85,11 @@ def run(scn, stats):
     inv = Inv(fo.flow)
 
     def stop(r):
+        # R1 (owned by C07) makes the engine offer a join that is already running: the harness would then
+        # hold two actions for one execution record and its ledger stops being meaningful
         return bool(fo.flow.late_arrivals)
 
-    defn, r = common.run(scn, stats, observers=[fo, inv], stop=stop)
+    defn, r = common.run(scn, stats, observers=[fo, inv], stop=stop, post_poll=True)
     if fo.flow.late_arrivals:
         stats.excluded["R1"] += 1
     stats.label("status:" + r.d.status())
